@@ -7,6 +7,28 @@ def gen(x):
     for name in ("max_stack_depth", "min_sub_score", "min_loop_score", "max_sub_stack", "max_loop_stack"):
         m = x.need(re.search(r"Optimizer::%s\s*=\s*(\d+)" % name, s), "optimizer.cpp:" + name)
         w.append("def opt_%s : Nat := %s" % (name, m.group(1)))
+    # the cap of a loop fold (repair of D2): the class constant, the number of repetitions one
+    # fold erases at most (`max_loop_count - 1`: the first repetition stays as the loop body), the
+    # test "the fold would need a count above max_loop_count", and that the capped length is what
+    # the repeat count, the break point and the erased range are computed from
+    m = x.need(re.search(r"Optimizer::max_loop_count\s*=\s*(\d+)", s), "optimizer.cpp:max_loop_count")
+    w.append("def opt_max_loop_count : Nat := %s" % m.group(1))
+    am = x.need(re.search(r"void\s+Optimizer::apply_match\s*\(\s*\)(.*?)\n\}", s, flags=re.S), "optimizer.cpp:apply_match")
+    body = re.sub(r"\s+", " ", am.group(1))
+    x.need(re.search(r"uint32_t loop_length = best_match\.loop_length ;", body.replace(";", " ;")),
+           "optimizer.cpp:apply_match loop_length copy")
+    m = x.need(re.search(r"uint32_t max_fold = max_loop_count - (\d+) ?;", body), "optimizer.cpp:apply_match max_fold")
+    w.append("def opt_loop_fold_kept : Nat := %s" % m.group(1))
+    x.need(re.search(r"if ?\( ?loop_length / length > max_fold \|\| \( ?loop_length / length == max_fold && loop_length % length ?\) ?\) "
+                     r"loop_length = max_fold \* length ?; "
+                     r"uint32_t repeats = \( ?loop_length / length ?\) \+ 1 ?; "
+                     r"uint32_t break_point = loop_length % length ?;", body),
+           "optimizer.cpp:apply_match loop count cap")
+    x.need(re.search(r"src_events\.erase\( ?src_events\.begin\(\) \+ best_match\.loop_position, "
+                     r"src_events\.begin\(\) \+ best_match\.loop_position \+ loop_length ?\) ?;", body),
+           "optimizer.cpp:apply_match erased range")
+    if "best_match.loop_length" in body.split("uint32_t max_fold", 1)[1]:
+        raise x.ShapeError("optimizer.cpp:apply_match uses the uncapped loop_length after the cap")
     m = x.need(re.search(r":\s*sub_id\((\d+)\)", s), "optimizer.cpp:sub_id initialiser")
     w.append("def opt_sub_id : Nat := %s" % m.group(1))
     m = x.need(re.search(r"min_score\((\d+)\)", s), "optimizer.cpp:min_score initialiser")
